@@ -13,9 +13,11 @@
   both compilers return on the whole class; clause (c) also with measurements on which all branches agree (incl. photon loss);
   the density matrix is physical (PSD, trace = ∏ survival) through arbitrary measurements; clause (d) for whole circuits
   (switch off = noiseless run literally; zero strength = noiseless state).
-  What is *not* a theorem: clause (c) after measurements — it is *false* for the code as it stands on circuits that measure
-  after noise with branch-dependent outcomes (known finding, see `per_branch_measurement_differs` below); it is proved
-  for measurements on which all branches agree.  Positivity of the floating-point matrix is checked by the oracle only.
+  What is *not* a theorem: clause (c) after measurements on which the branches disagree — it is *false* for the code as it
+  stands (known finding F2, see `per_branch_measurement_differs`; `per_branch_measurement_semantics` gives the exact state the
+  code produces); it is proved for measurements on which all branches agree, and for *all* measurements for the repaired
+  `apply_measurement` of the proposal in handoff/deep-c06.md (section `f2_repair`: definitions in Proofs/, not part of the model
+  of the code).  Positivity of the floating-point matrix is checked by the oracle only.
 -/
 import GraphiqModel.Proofs.Noise
 import GraphiqModel.Proofs.Channel
